@@ -12,6 +12,8 @@
 * `nls_subclass`      -- builds the user-side subclass from a base class passed in by the check
                          (this module never imports the library under test).
 """
+import math
+
 import numpy as np
 import sympy as sp
 import torch
@@ -53,8 +55,22 @@ def affine(M1, v1, M2, v2, c=None):
 
 
 # --------------------------------------------------------------------------- expression trees
+def _tsin(a):
+    return torch.sin(a) if torch.is_tensor(a) else math.sin(a)
+
+
+def _tcos(a):
+    return torch.cos(a) if torch.is_tensor(a) else math.cos(a)
+
+
+def _q(v, den=1000):
+    """Exact rational constant: no binary/decimal printing round-off can separate the torch
+    model from the numpy reference or from the symbolic derivative."""
+    return sp.Rational(int(round(float(v) * den)), den)
+
+
 def _coef(rng, lo=0.3, hi=1.5):
-    return float(np.round(rng.uniform(lo, hi) * rng.choice([-1.0, 1.0]), 3))
+    return _q(rng.uniform(lo, hi) * rng.choice([-1.0, 1.0]))
 
 
 def _magnitude(e):
@@ -62,7 +78,7 @@ def _magnitude(e):
     are replaced by the absolute values of their arguments (round-off scale of evaluating e or
     of propagating derivatives through it)."""
     if e.is_Number:
-        return sp.Float(abs(float(e)))
+        return abs(e)
     if e.is_Symbol:
         return e
     if e.is_Add:
@@ -91,7 +107,7 @@ class SmoothSystem:
         v = list(self.xs) + list(self.us)
         if kind == "affine":
             # time-varying affine system (Floquet-like): second-order error is identically zero
-            f = [sum(_coef(rng, 0.1, 0.9) * (1 + 0.3 * sp.cos(0.21 * self.t + i)) * s for s in v) + _coef(rng) * sp.sin(0.4 * self.t)
+            f = [sum(_coef(rng, 0.1, 0.9) * (1 + _q(0.3) * sp.cos(_q(0.21) * self.t + i)) * s for s in v) + _coef(rng) * sp.sin(_q(0.4) * self.t)
                  for i in range(n)]
             g = [sum(_coef(rng, 0.1, 0.9) * s for s in v) + _coef(rng) * self.t / 16 for i in range(q)]
         elif kind == "mild":
@@ -101,31 +117,42 @@ class SmoothSystem:
             Bl = rng.standard_normal((n, m))
             f = []
             for i in range(n):
-                lin = sum(float(np.round(Al[i, j], 3)) * self.xs[j] for j in range(n)) \
-                    + sum(float(np.round(Bl[i, j], 3)) * self.us[j] for j in range(m))
-                nl = sum(_coef(rng, 0.1, 0.4) * nl_gain * sp.sin(self._tree(max(1, depth - 1))) for _ in range(2))
+                lin = sum(_q(Al[i, j]) * self.xs[j] for j in range(n)) + sum(_q(Bl[i, j]) * self.us[j] for j in range(m))
+                nl = sum(_coef(rng, 0.1, 0.4) * _q(nl_gain) * self._bounded_slope_term() for _ in range(2))
                 f.append(lin + nl)
-            g = [self._tree(1) for _ in range(q)]
+            g = [self._tree(1) + self.xs[int(rng.integers(n))] for _ in range(q)]
         else:
             f = [self._output(depth) for _ in range(n)]
             g = [self._output(max(1, depth - 1)) for _ in range(q)]
             # every system has an explicit product of time and state, and a pure-state output
-            f[0] = f[0] + _coef(rng) * sp.sin(0.37 * self.t + 0.5) * self.xs[int(rng.integers(n))] if time_dep else f[0]
+            f[0] = f[0] + _coef(rng) * sp.sin(_q(0.37) * self.t + _q(0.5)) * self.xs[int(rng.integers(n))] if time_dep else f[0]
             if rng.random() < 0.5:
-                g[int(rng.integers(q))] = self.xs[int(rng.integers(n))] * 1.0     # D row == 0 (cart-pole style)
+                g[int(rng.integers(q))] = self.xs[int(rng.integers(n))]     # D row == 0 (cart-pole style)
         self.f, self.g = [sp.sympify(e) for e in f], [sp.sympify(e) for e in g]
         self._compile()
 
     # -- random trees ------------------------------------------------------------------
+    def _bounded_slope_term(self):
+        """sin / cos of a linear form in at most two variables and time: globally Lipschitz, so
+        an iterative-LQR roll-out without line search cannot blow up on it."""
+        v = list(self.xs) + list(self.us)
+        arg = _coef(self.rng, 0.3, 1.2) * v[int(self.rng.integers(len(v)))]
+        if self.rng.random() < 0.5:
+            arg = arg + _coef(self.rng, 0.3, 1.2) * v[int(self.rng.integers(len(v)))]
+        if self.time_dep and self.rng.random() < 0.7:
+            arg = arg + _q(self.rng.uniform(0.1, 0.9)) * self.t
+        arg = arg + _q(self.rng.uniform(-1, 1), 100)
+        return sp.sin(arg) if self.rng.random() < 0.5 else sp.cos(arg)
+
     def _leaf(self):
         r = self.rng.random()
         v = list(self.xs) + list(self.us)
         if self.time_dep and r < 0.22:
             k = self.rng.integers(3)
-            w, ph = float(np.round(self.rng.uniform(0.1, 0.9), 3)), float(np.round(self.rng.uniform(0, 3), 2))
+            w, ph = _q(self.rng.uniform(0.1, 0.9)), _q(self.rng.uniform(0, 3), 100)
             return (sp.sin(w * self.t + ph), sp.cos(w * self.t + ph), self.t / 16)[k]
         if r < 0.30:
-            return sp.Float(_coef(self.rng))
+            return _coef(self.rng)
         return v[int(self.rng.integers(len(v)))]
 
     def _tree(self, d):
@@ -137,9 +164,9 @@ class SmoothSystem:
         if k == "mul":
             return self._tree(d - 1) * self._tree(d - 1)
         if k == "sin":
-            return sp.sin(_coef(self.rng) * self._tree(d - 1) + float(np.round(self.rng.uniform(-1, 1), 2)))
+            return sp.sin(_coef(self.rng) * self._tree(d - 1) + _q(self.rng.uniform(-1, 1), 100))
         if k == "cos":
-            return sp.cos(_coef(self.rng) * self._tree(d - 1) + float(np.round(self.rng.uniform(-1, 1), 2)))
+            return sp.cos(_coef(self.rng) * self._tree(d - 1) + _q(self.rng.uniform(-1, 1), 100))
         if k == "sq":
             return self._tree(d - 1) ** 2
         if k == "cube":
@@ -158,7 +185,7 @@ class SmoothSystem:
         F, G = sp.Matrix(self.f), sp.Matrix(self.g)
         X, U = sp.Matrix(self.xs), sp.Matrix(self.us)
         J = {"A": F.jacobian(X), "B": F.jacobian(U), "C": G.jacobian(X), "D": G.jacobian(U)}
-        tmods = [{"sin": torch.sin, "cos": torch.cos}]
+        tmods = [{"sin": _tsin, "cos": _tcos}]
         self.f_torch = sp.lambdify(args, list(self.f), modules=tmods)
         self.g_torch = sp.lambdify(args, list(self.g), modules=tmods)
         self._f_np = sp.lambdify(args, list(self.f), modules="numpy")
